@@ -298,6 +298,8 @@ def gen_ack(rng, cid, mode='step'):
 # resources (C06): processes follow request / hold / release patterns; each process uses one resource
 
 def gen_resource(rng, cid, mode='step'):
+    if rng.random() < 0.12:
+        return gen_preempt_queue(rng, cid, mode)
     c = Case(cid, mode)
     nres = rng.choice([1, 1, 2])
     for _ in range(nres):
@@ -338,6 +340,49 @@ def gen_resource(rng, cid, mode='step'):
                 prog += [('timeout', ts, delay(rng), None), ('yield', ts, 0)]
         c.progs.append(prog)
         c.mains.append((i, i + 1))
+    return c
+
+
+def gen_preempt_queue(rng, cid, mode='step'):
+    """a PreemptiveResource whose slots are taken; a NON-preempting request N queues up; a preempting request P that ranks better
+    than some user but worse than N queues up behind it (queue order forbids serving P first); then N leaves the head of the
+    queue - it reneges (patience timeout, with-exit cancels it) or is served by an ordinary release - and P is re-evaluated from
+    the queue: the eviction is decided while somebody else (or nobody) is the active process"""
+    c = Case(cid, mode)
+    cap = rng.choice([1, 1, 2])
+    c.res.append(('preemptive', cap, 0))
+    slot = 0
+    def add(prog):
+        c.progs.append(prog); c.mains.append((len(c.progs) - 1, len(c.progs)))
+    # the users: take the slots at time 0 (the last one is the bad one), hold, leave through the with-exit (also when evicted)
+    for u in range(cap):
+        bad = u == cap - 1
+        prio = rng.choice([3, 3, 2]) if bad else rng.choice([0, 0, 1])
+        hold = rng.choice([10, 10, 4]) if bad else rng.choice([3, 3, 2, 10])
+        add([('request', slot, 0, prio, rng.random() < 0.3), ('yield', slot, 12), ('timeout', slot + 1, hold, None), ('yield', slot + 1, 10), ('exit', slot, 0)]
+            + ([('timeout', slot + 2, 1, None), ('yield', slot + 2, 0), ('log', 50 + u)] if rng.random() < 0.4 else []))
+        slot += 3
+    # N: non-preempting, better ranked, arrives first
+    tn, tp = rng.choice([(1, 2), (1, 2), (1, 1), (0.5, 1), (2, 1)])
+    nprio = rng.choice([1, 1, 0, 2])
+    prog = [('timeout', slot, tn, None), ('yield', slot, 0), ('request', slot + 1, 0, nprio, False)]
+    if rng.random() < 0.65:
+        prog += [('timeout', slot + 2, rng.choice([2, 2, 1, 0.5]), None), ('anyof', slot + 3, slot + 1, slot + 2), ('yield', slot + 3, 12),
+                 ('exit', slot + 1, 0)]                                                   # reneges (or releases at once when served meanwhile)
+    else:
+        prog += [('yield', slot + 1, 12), ('timeout', slot + 2, rng.choice([1, 2]), None), ('yield', slot + 2, 10), ('exit', slot + 1, 0)]
+    add(prog)
+    slot += 4
+    # P (one or two): preempting, behind N
+    for k in range(rng.choice([1, 1, 2])):
+        pprio = rng.choice([2, 2, 1, 3])
+        add([('timeout', slot, tp + k * rng.choice([0, 0.5]), None), ('yield', slot, 0), ('request', slot + 1, 0, pprio, rng.random() < 0.85),
+             ('yield', slot + 1, 12), ('timeout', slot + 2, rng.choice([1, 1, 3]), None), ('yield', slot + 2, 10), ('exit', slot + 1, 0)])
+        slot += 3
+    if rng.random() < 0.5:
+        first, rest = c.mains[:cap], c.mains[cap:]
+        rng.shuffle(rest)
+        c.mains = first + rest
     return c
 
 
